@@ -39,6 +39,18 @@ H3 == {Mk("C17/h3/" \o ctx \o "/" \o OpName(o1) \o "-" \o OpName(o2) \o "-" \o O
 KeepOps == {<<"w", 1, 1, "none">>, <<"a", 1, 2, "keep">>, <<"a", 1, 1, "keep">>, <<"t", 1, 1, "none">>, <<"r", 1, 1, "none">>}
 H4 == {Mk("C17/h4/" \o ctx \o "/" \o OpName(o1) \o "-" \o OpName(o2) \o "-" \o OpName(o3) \o "-" \o OpName(o4), ctx, OpStmt(o1) \o OpStmt(o2) \o OpStmt(o3) \o OpStmt(o4) \o OpStmt(<<"r", 1, 1, "none">>))
        : o1 \in KeepOps, o2 \in KeepOps, o3 \in KeepOps, o4 \in KeepOps, ctx \in (IF Quick THEN {"top"} ELSE {"top", "func"})}
+\* contents and paths that a shell command could take for an option, a format or a pattern (free of the characters with recorded findings):
+\* write, append, read back, exists, and a neighbour file that must stay untouched
+OddConts == <<"-n", "-e hello", "-", "--", "100%", "%s %d", "a\tb", "a  b", "   ", " lead", "*", "?", "[a]", "#c", "a;b", "007", "x=1", "(p)", "a&b", "~", "'q'", "-1", "!x", "a|b", "> f", "< f">>
+OddPaths == <<"-n.txt", "--x", "a  b.txt", " lead.txt", "trail .txt", "star*.txt", "q?.txt", "[a].txt", "semi;x.txt", "hash#.txt", "=.txt", "(p).txt", "amp&.txt", "it's.txt", "~t.txt", "%d.txt", "sub/in dir.txt">>
+ContCases == {Mk("C17/cont/" \o ToString(i) \o "/" \o ctx, ctx, <<WriteS(StrL("keep.txt"), StrL("keep")), WriteS(StrL("o.txt"), StrL(OddConts[i])), PrintS(<<StrL("["), ReadE(StrL("o.txt")), StrL("]"), LenE(ReadE(StrL("o.txt")))>>),
+                                                                    WriteA(StrL("o.txt"), StrL(OddConts[i]), BoolL(TRUE)), WriteA(StrL("n.txt"), StrL(OddConts[i]), Var("yes")), Def1("r", ReadE(StrL("o.txt"))),
+                                                                    PrintS(<<StrL("["), Var("r"), StrL("]"), LenE(Var("r")), CmpE("==", ReadE(StrL("n.txt")), StrL(OddConts[i])), ReadE(StrL("keep.txt"))>>)>>)
+              : i \in 1..Len(OddConts), ctx \in {"top", "func"}}
+PathCases == {Mk("C17/path/" \o ToString(i) \o "/" \o ctx, ctx, <<WriteS(StrL("keep.txt"), StrL("keep")), Def1("p", StrL(OddPaths[i])), PrintS(<<ExistsE(Var("p")), ExistsE(StrL(OddPaths[i]))>>),
+                                                                    WriteS(Var("p"), StrL("one")), WriteA(StrL(OddPaths[i]), StrL("two"), BoolL(TRUE)), PrintS(<<ExistsE(Var("p")), ReadE(StrL(OddPaths[i])), ReadE(StrL("keep.txt"))>>),
+                                                                    WriteS(StrL(OddPaths[i]), StrL("three")), Print1(ReadE(Var("p")))>>)
+              : i \in 1..Len(OddPaths), ctx \in {"top", "func"}}
 \* further shapes: the flag as a parameter, writes in a loop, path and content held in variables / computed
 Extra ==
   {Mk("C17/x/paramflag", "func", <<WriteS(StrL("a.txt"), StrL("first")), WriteA(StrL("a.txt"), StrL("second"), Var("flag")), WriteA(StrL("a.txt"), StrL("third"), Not(Var("flag"))), Print1(ReadE(StrL("a.txt")))>>),
@@ -47,5 +59,5 @@ Extra ==
    Mk("C17/x/computedpath", "top", <<Def1("n", NatLit(7)), WriteS(Bin("+", Bin("+", StrL("f"), Itoa(Var("n"))), StrL(".txt")), StrL("seven")), Print1(ReadE(StrL("f7.txt")))>>),
    Mk("C17/x/readwritten", "top", <<WriteS(StrL("a.txt"), StrL("v1")), Def1("r", ReadE(StrL("a.txt"))), WriteS(StrL("b.txt"), Bin("+", Var("r"), StrL("+"))), WriteS(StrL("a.txt"), StrL("v2")), PrintS(<<Var("r"), ReadE(StrL("a.txt")), ReadE(StrL("b.txt"))>>)>>),
    Mk("C17/x/multiline", "top", <<WriteS(StrL("a.txt"), StrL("l1")), WriteA(StrL("a.txt"), StrL("l2"), Var("yes")), WriteA(StrL("a.txt"), StrL("l3"), BoolL(TRUE)), Def1("r", ReadE(StrL("a.txt"))), PrintS(<<LenE(Var("r")), Var("r")>>)>>)}
-ASSUME ndJsonSerialize("fam.ndjson", SetToSeq(H1 \cup H2 \cup H3 \cup H4 \cup Extra))
+ASSUME ndJsonSerialize("fam.ndjson", SetToSeq(H1 \cup H2 \cup H3 \cup H4 \cup ContCases \cup PathCases \cup Extra))
 =============================================================================
